@@ -196,7 +196,14 @@ def check(payload):
     except BaseException as e:  # noqa
         if isinstance(e, KeyboardInterrupt):
             raise
-        return {"violations": [viol("reader-raises:" + type(e).__name__, str(e)[:200], shrunk={"source": text})],
+        key = "reader-raises:" + type(e).__name__
+        if form == "fixed" and isinstance(e, SystemExit):
+            from .c05 import predicates
+
+            pk = predicates(text)
+            if pk:
+                key = pk[0]
+        return {"violations": [viol(key, str(e)[:200], shrunk={"source": text})],
                 "digests": [], "monitors": mons, "tally": tally}
     mons["items_compared"] += len(got)
     # blank lines are not comments: the reader represents some of them as empty
@@ -204,7 +211,13 @@ def check(payload):
     blank = lambda x: x[0] == "C" and x[1] == ""  # noqa: E731
     d = compare_items([g for g in got if not blank(g)], [e for e in exp if not blank(e)])
     if d:
-        viols.append(viol(d[0] + ":" + form, "(%s, ignore_comments=%s) %s" % (form, ic, d[1]), shrunk={"source": text}))
+        key = d[0] + ":" + form
+        if form == "fixed" and d[0] in ("line-text", "construct-name"):
+            from .c05 import name_split
+
+            if name_split(P, text, info):
+                key = "construct-name-split-across-fixed-continuation"
+        viols.append(viol(key, "(%s, ignore_comments=%s) %s" % (form, ic, d[1]), shrunk={"source": text}))
     w = walks(text, form, ic, got, [payload["layout_seed"] + k for k in range(3)])
     mons["pushback_walks"] += 3
     if w:
